@@ -1120,8 +1120,10 @@ func (v *vEnv) hopP(r *vRand, transport, auth, items int, o vOutcome, signal int
 	in = append(in, vZ(int64(signal)), vZ(int64(compIdx)), vZ(lossy), vZ(int64(level)), vZ(int64(kib)))
 	switch {
 	case kib >= 1024:
+		v.out.Stat("hop_large_comp_"+comp, 1)
 		v.out.Stat("hop_body_ge_1MiB", 1)
 	case kib >= 128:
+		v.out.Stat("hop_large_comp_"+comp, 1)
 		v.out.Stat("hop_body_128KiB_to_1MiB", 1)
 	default:
 		v.out.Stat("hop_body_lt_128KiB", 1)
@@ -1138,6 +1140,7 @@ func (v *vEnv) hopP(r *vRand, transport, auth, items int, o vOutcome, signal int
 	v.out.Stat(fmt.Sprintf("hop_transport_%d", transport), 1)
 	v.out.Stat(fmt.Sprintf("hop_okind_%d", o.okind), 1)
 	v.out.Stat(fmt.Sprintf("hop_signal_%d", signal), 1)
+	v.out.Stat(fmt.Sprintf("hop_signal_%d_transport_%d", signal, transport), 1)
 	v.out.Stat(fmt.Sprintf("hop_comp_%d_%s", transport, comp), 1)
 	v.out.Stat(fmt.Sprintf("hop_auth_%d", auth), 1)
 	v.out.Stat(fmt.Sprintf("hop_verdict_%d", verdict), 1)
@@ -1685,6 +1688,7 @@ func (v *vEnv) shutdownScenario(r *vRand, transport int, o vOutcome, signal int)
 		term := vPair("10", vPair(vList(in), vList(obs)))
 		v.out.Case(true, term)
 		v.out.Stat(fmt.Sprintf("shutdown_phase_%d_transport_%d", phase, transport), 1)
+		v.out.Stat(fmt.Sprintf("shutdown_signal_%d_transport_%d", signal, transport), 1)
 		v.out.Stat(fmt.Sprintf("shutdown_phase_%d_verdict_%d", phase, verdict), 1)
 		desc := fmt.Sprintf("transport=%d phase=%d items=%d signal=%d comp=%s outcome=%+v: called=%v verdict=%d delay=%d code=%d err=%v",
 			transport, phase, items, signal, comp, o, called, verdict, delay, code, err)
@@ -1975,8 +1979,8 @@ func TestVerifC15Hop(t *testing.T) {
 	// (7) exports that overlap the receiver's Shutdown: every transport x {accepted, refused as permanent, refused as
 	// transient, explicit status with a throttling delay}, then random outcomes
 	for transport := 0; transport < 3; transport++ {
-		for _, o := range []vOutcome{{}, {okind: 2}, {okind: 1}, {okind: 3, code: 8, riKind: 1, d: 2 * time.Second}} {
-			v.shutdownScenario(r, transport, o, r.Intn(4))
+		for k, o := range []vOutcome{{}, {okind: 2}, {okind: 1}, {okind: 3, code: 8, riKind: 1, d: 2 * time.Second}} {
+			v.shutdownScenario(r, transport, o, (k+transport)%4) // every signal (incl. profiles) on every transport
 		}
 	}
 	for i, n := 0, vBudget(6, 5); i < n; i++ {
